@@ -155,3 +155,24 @@ PLANS['C03'] = {
     'run': api_runner({'quick': [('exact', 16, 3, 12), ('exactbig', 4, 2, 4)],
                        'thorough': [('exact', 200, 4, 16), ('exactbig', 40, 3, 16)]}),
 }
+
+def params_runner(sizes):
+    def run(ctx):
+        bdir = ctx['build']('rel', ['params_drv'])
+        mcres, viol, infra = _mc_all(ctx, [dict(name='Params', cfg='MC_Params.cfg', tla='MC_Params.tla', workers=ctx['ncpu'], timeout=900, coverage=True)] if os.path.exists(os.path.join(ctx['verif'], 'spec', 'MC_Params.tla')) else [])
+        nexec, ln, shards = sizes[ctx['tier']]
+        jobs = [(('rnd', ctx['seed'] * 100003 + sh * 7919 + 1, nexec, ln), os.path.join(ctx['rundir'], 'params-%d.ndjson' % sh)) for sh in range(shards)]
+        traces = _drive(ctx, bdir, 'params_drv', jobs)
+        s = ctx['validate_traces']('TV_Params', traces)
+        ctx['log']('TV: %d events validated, %d violations, %d known, %d infra' % (s['events'], len(s['violations']), len(s['known']), len(s['infra'])))
+        nexe = ctx['count_executions'](traces)
+        cov = {'states': sum(m['distinct'] for m in mcres) + s['events'], 'transitions': sum(m['states'] for m in mcres) + s['events'],
+               'traces_validated_against_impl': nexe, 'samples': _samples(traces), 'evaluations': s['events'],
+               'distinct_nontrivial': _distinct(traces, lambda ev: (ev.get('a'), ev.get('t'), ev.get('name'), ev.get('cls'), ev.get('ret'), ev.get('wellFormed')) if ev.get('a') not in ('Reset', 'create') else None),
+               'rule': 'one evaluation = one parameter operation on a real SoPlex object validated by TLC against Params.tla; distinct = distinct (operation, type, parameter, value class, outcome)',
+               'mc_models': mcres, 'tv_events': s['events'], 'executions': nexe, 'known_findings_hit': len(s['known']), 'exhaustive': False}
+        kn = sorted(set('%s: %s' % (k['id'], k['what']) for k in s['known']))
+        return {'coverage': cov, 'violations': viol + s['violations'], 'known': kn, 'infra': infra + s['infra'],
+                'assumptions': ['parameter table spec/params_table.json transcribed from the pinned tree', 'INFTY and VERBOSITY are not varied']}
+    return run
+PLANS['C15'] = {'level': 'model_checking', 'tv_spec': 'TV_Params', 'run': params_runner({'quick': (12, 60, 12), 'thorough': (120, 80, 16)})}
